@@ -65,6 +65,20 @@ def collide_names(sch):
         return
 
 
+def add_sizer_chain(sch):
+    """A chain of typedefs down to an integer, spread over the declaration order (so that cuts fall between its links),
+    whose last link types the explicit sizer of an array: the struct's file includes only the file of that last link."""
+    if 'ZLen' in sch.by_name:
+        return
+    n = len(sch.defs)
+    for pos, d in ((0, S.Typedef('ZLen', 'u16')), (1 + n // 3, S.Typedef('ZLen2', 'ZLen')),
+                   (2 + 2 * n // 3, S.Typedef('ZLen3', 'ZLen2'))):
+        sch.defs.insert(min(pos, len(sch.defs)), d)
+        sch.by_name[d.name] = d
+    sch.add(S.Struct('ZSized', [S.Member('n', 'ZLen3'), S.Member('k', 'ZLen2'), S.Member('d', 'u8', S.EXT, sizer='n'),
+                                S.Member('e', 'u16', S.EXT, sizer='k')]))
+
+
 def make_split(sch, rng, twice=False, like_types=False, stub=False):
     """-> list of (filename, [def names], [included filenames])
     like_types: a file is called after the first definition it holds (N3.prophy defines N3 ...);
@@ -349,6 +363,7 @@ def run_shard(spec):
                 sch = S.random_schema(random.Random(rng.random()), ntypes=rng.randint(4, 12), cpp_full=spec['cpp'])
                 if len(sch.defs) >= 3:
                     break
+            add_sizer_chain(sch)
             collide_names(sch)
             for arrangement in (ARRANGEMENTS if not spec.get('extra') else [spec['extra']['arrangement']]):
                 idx += 1
